@@ -223,6 +223,73 @@ Definition op_copy_within (oc : bool) (v : view) (b : buf) (x0 y0 x1 y1 dx dy : 
     | _ => copy_within_same v rs (N.to_nat x0) (N.to_nat x1) (N.to_nat dx) b
     end.
 
+(** ** copy_within with destination corners of any magnitude (values near usize::MAX).
+    The same statements once more with every caller-supplied quantity kept in binary and
+    compared before it is converted; without overflow checks the two sums, and the row
+    offset added inside the loop, wrap.  A panic inside the loop leaves the rows copied so
+    far in place: the result is [Ok (panicked, buffer)]. *)
+Definition index_range_N (s : sl) (a b : N) : res sl :=
+  if ((a <=? b) && (b <=? N.of_nat (len s)))%N then index_range s (N.to_nat a) (N.to_nat b) else Panic.
+
+Definition copy_row_to_row_w (b : buf) (s d : sl) (sx0 sx1 : nat) (dx e0 : N) : res buf :=
+  dw <- index_range_N d dx e0 ;;
+  sw <- index_range s sx0 sx1 ;;
+  _ <- assert (len dw =? len sw) ;;
+  xs <- read_win b sw ;; write_win b dw xs.
+
+Definition cw_step_w (oc : bool) (v : view) (down : bool) (off_ : N) (sx0 sx1 : nat) (dx e0 : N)
+  (r : nat) (b : buf) : res buf :=
+  r2 <- (if down then uadd oc (N.of_nat r) off_ else Ok (N.of_nat r - off_)%N) ;;
+  p <- op_row_pair v (N.of_nat r) r2 ;;
+  copy_row_to_row_w b (fst p) (snd p) sx0 sx1 dx e0.
+
+Definition cw_same_step_w (v : view) (sx0 sx1 : nat) (dx : N) (r : nat) (b : buf) : res buf :=
+  w <- v_index_row v (N.of_nat r) ;;
+  (* slice::copy_within: count = end - start; assert!(dest <= len - count) *)
+  _ <- assert ((sx0 <=? sx1) && (sx1 <=? len w)) ;;
+  _ <- assert (dx <=? N.of_nat (len w - (sx1 - sx0)))%N ;;
+  xs <- read_win b (mkSl (off w + sx0) (sx1 - sx0)) ;;
+  write_win b (mkSl (off w + N.to_nat dx) (sx1 - sx0)) xs.
+
+(** a loop of fallible steps that stops at the first panic, keeping what was written *)
+Fixpoint steps_w (step : nat -> buf -> res buf) (rs : list nat) (b : buf) : res (bool * buf) :=
+  match rs with
+  | [] => Ok (false, b)
+  | r :: tl =>
+      match step r b with
+      | Ok b' => steps_w step tl b'
+      | Panic => Ok (true, b)
+      | UB => UB
+      end
+  end.
+
+Definition copy_within_rows_w (oc : bool) (v : view) (rs : list nat) (down : bool) (off_ : N)
+  (sx0 sx1 : nat) (dx e0 : N) (b : buf) : res (bool * buf) :=
+  steps_w (cw_step_w oc v down off_ sx0 sx1 dx e0) rs b.
+Definition copy_within_same_w (v : view) (rs : list nat) (sx0 sx1 : nat) (dx : N) (b : buf) : res (bool * buf) :=
+  steps_w (cw_same_step_w v sx0 sx1 dx) rs b.
+
+Definition op_copy_within_w (oc : bool) (v : view) (b : buf) (x0 y0 x1 y1 dx dy : N) : res (bool * buf) :=
+  match (_ <- assert (x0 <=? x1)%N ;;
+         _ <- assert (y0 <=? y1)%N ;;
+         _ <- assert (x1 <=? N.of_nat (vcols v))%N ;;
+         _ <- assert (y1 <=? N.of_nat (vrows v))%N ;;
+         let cols := (x1 - x0)%N in
+         let rows := (y1 - y0)%N in
+         e0 <- uadd oc dx cols ;;
+         _ <- assert (e0 <=? N.of_nat (vcols v))%N ;;
+         e1 <- uadd oc dy rows ;;
+         _ <- assert (e1 <=? N.of_nat (vrows v))%N ;;
+         let rs := seq (N.to_nat y0) (N.to_nat rows) in
+         if (y0 <? dy)%N then
+           copy_within_rows_w oc v (rev rs) true (dy - y0)%N (N.to_nat x0) (N.to_nat x1) dx e0 b
+         else if (dy <? y0)%N then
+           copy_within_rows_w oc v rs false (y0 - dy)%N (N.to_nat x0) (N.to_nat x1) dx e0 b
+         else copy_within_same_w v rs (N.to_nat x0) (N.to_nat x1) dx b) with
+  | Panic => Ok (true, b)
+  | r => r
+  end.
+
 (** * translate_with_wrap, flip_rows, flip_cols (translate.rs) *)
 Definition rotate_win (b : buf) (w : sl) (mid : nat) : res buf :=
   _ <- assert (mid <=? len w) ;;
